@@ -86,7 +86,9 @@ static void t_io_stop(struct snapraid_io* io)
 
 static block_off_t t_io_read_next(struct snapraid_io* io, void*** buffer)
 {
-	block_off_t pos = o_io_read_next(io, buffer);
+	block_off_t pos;
+	sim_tramp_event(EV_IO_NEXT, -1, 0, io->io_max, 0); /* enter: the caller is done with its current slot */
+	pos = o_io_read_next(io, buffer);
 	sim_tramp_event(EV_IO_NEXT, io->reader_index, pos, io->io_max, 0);
 	return pos;
 }
@@ -116,6 +118,7 @@ static void t_io_parity_write(struct snapraid_io* io, unsigned* levcur, unsigned
 static void t_io_write_next(struct snapraid_io* io, block_off_t blockcur, int skip, int* writer_error)
 {
 	unsigned slot = io->writer_index;
+	sim_tramp_event(EV_IO_WNEXT, slot, blockcur, skip, 1); /* enter: the parity buffers of the slot are handed to the writers */
 	o_io_write_next(io, blockcur, skip, writer_error);
 	sim_tramp_event(EV_IO_WNEXT, slot, blockcur, skip, 0);
 }
